@@ -218,8 +218,12 @@ func programs() []program {
 	add("collection/Add(genID)||Add(genID)", func() {
 		c := resource.NewCollection(resource.WithRNG(rand.New(rand.NewSource(1))))
 		ids := make([]string, 2)
-		par(func() { c.Add("", tm(1), resource.WithGenIDIfAbsent(), resource.WithIDCallback(func(id string) { ids[0] = id })) },
-			func() { c.Add("", tm(2), resource.WithGenIDIfAbsent(), resource.WithIDCallback(func(id string) { ids[1] = id })) })
+		par(func() {
+			c.Add("", tm(1), resource.WithGenIDIfAbsent(), resource.WithIDCallback(func(id string) { ids[0] = id }))
+		},
+			func() {
+				c.Add("", tm(2), resource.WithGenIDIfAbsent(), resource.WithIDCallback(func(id string) { ids[1] = id }))
+			})
 	})
 	add("collection/Update||Delete||List", func() {
 		c := resource.NewCollection(resource.WithInitialRecord("a", tm(12)))
@@ -394,7 +398,9 @@ func programs() []program {
 		md := metadatapb.NewModel()
 		md.UpdateMetadata(&traits.Metadata{Name: "n", Traits: []*traits.TraitMetadata{{Name: "B", More: map[string]string{"k": "v"}}}})
 		held, _ := md.GetMetadata()
-		par(func() { md.MergeMetadata(&traits.Metadata{Traits: []*traits.TraitMetadata{{Name: "B", More: map[string]string{"z": "1"}}, {Name: "A"}}}) },
+		par(func() {
+			md.MergeMetadata(&traits.Metadata{Traits: []*traits.TraitMetadata{{Name: "B", More: map[string]string{"z": "1"}}, {Name: "A"}}})
+		},
 			func() { touch(held); m, _ := md.GetMetadata(); touch(m) },
 			func() { md.UpdateTraitMetadata(&traits.TraitMetadata{Name: "C"}) })
 	})
@@ -406,14 +412,21 @@ func programs() []program {
 			for e := range el.PullEnterLeaveEvents(ctx) {
 				touch(e.Value)
 			}
-		}, func() { el.CreateEnterLeaveEvent(&traits.EnterLeaveEvent{Direction: traits.EnterLeaveEvent_LEAVE}); cancel() }, func() { m, _ := el.GetEnterLeaveEvent(); touch(m) })
+		}, func() {
+			el.CreateEnterLeaveEvent(&traits.EnterLeaveEvent{Direction: traits.EnterLeaveEvent_LEAVE})
+			cancel()
+		}, func() { m, _ := el.GetEnterLeaveEvent(); touch(m) })
 		cancel()
 	})
 	add("electric/Create||Update||ChangeActive||Modes", func() {
 		e := electricpb.NewModel(electricpb.WithRNG(rand.New(rand.NewSource(3))))
 		e.AddMode(&traits.ElectricMode{Id: "x", Title: "x"})
 		par(func() { m, _ := e.CreateMode(&traits.ElectricMode{Title: "c", Normal: true}); touch(m) },
-			func() { m, _ := e.UpdateMode(&traits.ElectricMode{Id: "x", Title: "u"}); touch(m); e.ChangeActiveMode("x") },
+			func() {
+				m, _ := e.UpdateMode(&traits.ElectricMode{Id: "x", Title: "u"})
+				touch(m)
+				e.ChangeActiveMode("x")
+			},
 			func() {
 				for _, m := range e.Modes() {
 					touch(m)
@@ -427,7 +440,10 @@ func programs() []program {
 	})
 	add("vending/Dispense||GetStock||List", func() {
 		v := vendingpb.NewModel(vendingpb.WithInitialStock(&traits.Consumable_Stock{Consumable: "milk", Used: &traits.Consumable_Quantity{Unit: traits.Consumable_LITER, Amount: 1}, Remaining: &traits.Consumable_Quantity{Unit: traits.Consumable_LITER, Amount: 9}}))
-		par(func() { s, _ := v.DispenseInstantly("milk", &traits.Consumable_Quantity{Unit: traits.Consumable_LITER, Amount: 1}); touch(s) },
+		par(func() {
+			s, _ := v.DispenseInstantly("milk", &traits.Consumable_Quantity{Unit: traits.Consumable_LITER, Amount: 1})
+			touch(s)
+		},
 			func() { s, _ := v.GetStock("milk"); touch(s) },
 			func() {
 				for _, s := range v.ListInventory() {
